@@ -141,8 +141,8 @@ func repoFrame(stack []byte) string {
 			continue
 		}
 		m := frameRe.FindStringSubmatch(line)
-		if m == nil || strings.HasPrefix(m[2], "verifsim") {
-			continue
+		if m == nil || (strings.HasPrefix(m[2], "verifsim") && !strings.HasPrefix(m[2], "verifsim/cmdcollector")) {
+			continue // (verifsim/cmdcollector is cmd/collector's own code under another package name)
 		}
 		return m[2] + "." + trimArgs(m[3])
 	}
